@@ -1,6 +1,39 @@
 package main
 
-import "fmt"
+import (
+	"fmt"
+	"os"
+	"path/filepath"
+	"time"
 
-func cmdSelftest(args []string) int { fmt.Println("selftest: not built yet"); return 0 }
-func cmdWorker(args []string) int   { return 2 }
+	"verif/sim/internal/refmcap"
+)
+
+func repoDir() string {
+	if d := os.Getenv("VERIF_REPO"); d != "" {
+		return d
+	}
+	return "/repo"
+}
+
+// cmdSelftest pins the trusted base: all conformance binaries are regenerated
+// from their .json expectations with refmcap.Encode and must match the Git-LFS
+// pointers' sha256 and size; each is decoded again and compared with the
+// expectation, and must pass refmcap's own validator and CRC check.
+func cmdSelftest(args []string) int {
+	start := time.Now()
+	dir := filepath.Join(repoDir(), "tests", "conformance", "data")
+	n, problems := refmcap.ConformancePin(dir)
+	for i, p := range problems {
+		if i < 20 {
+			fmt.Println("SELFTEST-FAIL:", p)
+		}
+	}
+	fmt.Printf("selftest: %d conformance vectors regenerated and decoded, %d problems (%.1fs)\n", n, len(problems), time.Since(start).Seconds())
+	if n < 400 || len(problems) > 0 {
+		return 2
+	}
+	return 0
+}
+
+func cmdWorker(args []string) int { return 2 }
